@@ -5,7 +5,7 @@ import re
 import dm
 import gen_dm
 from props import _design as D
-from props._design import describe, nontrivial, unsupported, prepare, impl_obs, CASE_TIMEOUT  # noqa: F401
+from props._design import describe, nontrivial, unsupported, prepare, CASE_TIMEOUT  # noqa: F401
 
 ID = "C03"
 PROP_FILES = ["Properties/C03.v", "Properties/C03_rank.v"]
@@ -101,6 +101,20 @@ def _lattice(rng, tier):
         terms = [t.strip() for t in fml.split("~")[1].split("+") if t.strip() not in ("0",)]
         fam = [[re.sub(r"^[A-Za-z]*\(|\)$", "", t)] for t in terms]
         out.append({"formula": fml, "frame": fr, "na": "drop", "kind": "one-level", "family": fam, "icpt": icpt})
+    # ONE encoding object of the caller's namespace (enc = Treatment(), senc = Sum()) named by several atoms of a
+    # formula: the same object is asked for the reduced coding in one place and for the full coding in another
+    shared = ["C(f, enc) + C(f, enc):g", "0 + C(g, enc) + C(f, enc):C(g, enc)", "C(f, senc) + C(f, senc):g",
+              "g + C(f, enc):g", "C(g, enc) + f:C(g, enc)", "0 + C(g, senc) + C(f, senc):C(g, senc)", "C(f, enc):g",
+              "x + C(f, enc):x + C(f, enc)", "0 + C(f, enc):h + C(f, enc):g", "h + C(f, senc) + C(f, senc):h"]
+    for fml in shared:
+        for _ in range(3 if tier == "thorough" else 1):
+            nlev = {"f": rng.choice([2, 3]), "g": rng.choice([2, 3]), "h": 2}
+            fr = gen_dm.make_frame(rng, factorial=True, cats=["f", "g", "h"], nlev=nlev, extra_cols=False, reps=3)
+            icpt = not fml.startswith("0 +")
+            fam = [[re.sub(r"^[A-Za-z]*\(|[,)].*$", "", a) if "(" in a else a for a in D.split_label(t.strip())]
+                   for t in fml.split("+") if t.strip() != "0"]
+            out.append({"formula": "y ~ " + fml, "frame": fr, "na": "drop", "kind": "shared-encoder", "family": fam,
+                        "icpt": icpt, "shared_enc": True})
     four = list(fams(("f", "g", "h", "c")))
     if tier != "thorough":
         four = rng.sample(four, 300)
@@ -217,12 +231,40 @@ def reference_matrix(c, df, names):
     return np.column_stack(blocks)
 
 
+def _ns(c):
+    if not c.get("shared_enc"):
+        return None
+    from formulae.categorical import Sum, Treatment
+    return {"enc": Treatment(), "senc": Sum()}
+
+
+def impl_obs(c):
+    if c.get("shared_enc"):
+        try:
+            from formulae import design_matrices
+            return ["ok", dm.observe_design(design_matrices(c["formula"], dm.to_pandas(c["frame"]), extra_namespace=_ns(c)))]
+        except Exception as e:  # noqa
+            return ["err", type(e).__name__, str(e)[:160]]
+    return D.impl_obs(c)
+
+
 def model_cmd(c):
     import core
+    if c.get("shared_enc"):
+        # for the model: the same codings named as classes (the comparison skips the term names)
+        c = dict(c, formula=c["formula"].replace("senc", "Sum").replace("enc", "Treatment"))
     return core.sshow(["c03", c["formula"], dm.frame_sexp(c["frame"]), "drop", dm.extra_sexp(c.get("extra"))])
 
 
 def compare(c, mo, obs):
+    if c.get("shared_enc"):
+        # same design up to the spelling of the coding argument in the term names
+        obs = [obs[0]] + [[obs[1][0], [[t[0].replace("senc", "Sum").replace("enc", "Treatment")] + t[1:] for t in obs[1][1]],
+                           obs[1][2]]] if obs and obs[0] == "ok" else obs
+        if obs and obs[0] == "ok":
+            for t in obs[1][1]:
+                if t[2] is not None:
+                    t[2] = [l.replace("senc", "Sum").replace("enc", "Treatment") for l in t[2]]
     return D.compare(c, mo[0], obs)
 
 
@@ -289,7 +331,7 @@ def oracle(c):
     from formulae import design_matrices
     df = _generic(dm.to_pandas(c["frame"]), c)
     try:
-        d = design_matrices(c["formula"], df)
+        d = design_matrices(c["formula"], df, extra_namespace=_ns(c))
     except Exception as e:
         return f"{c['formula']!r} is rejected: {type(e).__name__}: {str(e)[:60]}"
     if d.common is None:
